@@ -552,3 +552,69 @@ def run_C09(tier, workdir):
     tl = 60 if tier == "quick" else 600
     res = obligations_numeq(workdir, tl, symmetric=(tier == "thorough"))
     return summarize(res, "C09")
+
+
+# ----------------------------------------------------------------------------- C13: the partition fill uses vs the edges the views report
+def obligations_index_vs_range(cls_name, cfg_name, h, meth, ranges, workdir, tlimit):
+    """for every double x: if the index kernel returns i then the reported edges of bin i contain x
+    (ranges[i] = (lo, hi) are obtained by calling the real accessor concretely; the index kernel is encoded from source)"""
+    import ast
+
+    from histogrammar.defs import Factory
+
+    name = "%s/%s/datum-inside-reported-edges-of-its-bin" % (cls_name, cfg_name)
+    try:
+        k = Kernel(Factory.registered[cls_name], h, {})
+        k.events, k.raises = [], []
+        outs = k.call_method(meth, [ast.Name("x", ast.Load())], {"self": h, "x": FP("x")}, True)
+    except Unsupported as e:
+        return [{"id": name, "status": "unknown", "detail": "unsupported: %s" % e}]
+    bad = []
+    for i, (lo, hi, closed) in ranges.items():
+        outside = OR(B("(fp.lt x %s)" % lit(lo)), B("(%s x %s)" % ("fp.gt" if closed else "fp.geq", lit(hi))))
+        for g, v in outs:
+            if isinstance(v, FP):
+                bad.append(AND(g, B("(fp.eq %s %s)" % (v.t, lit(float(i)))), outside))
+            elif v == i:
+                bad.append(AND(g, outside))
+    neg = AND(B("(not (fp.isNaN x))"), OR(*bad))
+    r = _query(name, ["x"], bt(neg), workdir, tlimit)
+    if r["status"] == "sat":
+        x = r["model"].get("x")
+        try:
+            i = getattr(h, meth)(x)
+            lo, hi, closed = ranges[i]
+            rep = {"reproduced": bool(x < lo or (x > hi if closed else x >= hi)), "x": repr(x),
+                   "detail": "x=%r is put in bin %r whose reported edges are [%r, %r)" % (x, i, lo, hi)}
+        except Exception as e:  # noqa: BLE001
+            rep = {"reproduced": False, "x": repr(x), "detail": "replay failed: %r" % (e,)}
+        r["replay"] = rep
+    return [r]
+
+
+def run_C13(tier, workdir):
+    H = _H()
+    tl = 60 if tier == "quick" else 300
+    jobs = []
+    for cfg in (BIN_CONFIGS if tier == "thorough" else BIN_CONFIGS[:10]):
+        def job(cfg=cfg):
+            h = H.Bin(cfg[0], cfg[1], cfg[2], eval(IDENT))
+            rng = {i: (h.range(i)[0], h.range(i)[1], False) for i in range(cfg[0])}
+            return obligations_index_vs_range("Bin", _cfgname(cfg), h, "bin", rng, workdir, tl)
+        jobs.append(job)
+    for cfg in SPARSE_CONFIGS:
+        def job(cfg=cfg):
+            h = H.SparselyBin(cfg[0], eval(IDENT), H.Count(), H.Count(), cfg[1])
+            rng = {i: (h.range(i)[0], h.range(i)[1], False) for i in range(-3, 4)}
+            return obligations_index_vs_range("SparselyBin", _cfgname(cfg), h, "bin", rng, workdir, tl)
+        jobs.append(job)
+    for cs in CENTERS:
+        def job(cs=cs):
+            h = H.CentrallyBin(cs, eval(IDENT))
+            rng = {}
+            for i, c in enumerate(h.centers):
+                lo, hi = h.range(c)
+                rng[i] = (lo, hi, i == len(cs) - 1)
+            return obligations_index_vs_range("CentrallyBin", repr(cs), h, "index", rng, workdir, tl)
+        jobs.append(job)
+    return summarize(_pool(jobs), "C13")
